@@ -42,6 +42,16 @@
 (*                        of the request is misplaced / duplicated         *)
 (*  D_other_not6_unsigned other-data whose length is not 0 or 6 is accepted *)
 (*                        and left out of the digest (other-len signed 0)  *)
+(*  D_tsig_class_ttl_unchecked  CLASS / TTL of a received TSIG RR are not  *)
+(*                        looked at (RFC 8945 4.2: MUST be ANY / 0; 4.3.3: *)
+(*                        both are digest input): a record with another    *)
+(*                        class or TTL verifies                            *)
+(*                                                                         *)
+(* Spec-level mutants (never open deviations; the check switches them on   *)
+(* to show that the invariants of MC_TsigKeys / MC_Tsig notice them):      *)
+(*  M_len_floor_min       key lengths admitted from min(10, native/2)      *)
+(*  M_alg_first_label     an algorithm name is recognised by its first     *)
+(*                        label alone                                      *)
 (***************************************************************************)
 EXTENDS Octets, FiniteSets
 
@@ -55,16 +65,58 @@ Native(a) == CASE a = "sha1" -> 20 [] a = "sha256" -> 32
                [] a = "sha384" -> 48 [] a = "sha512" -> 64
 \* wire format of the algorithm names ("hmac-sha1." ...)
 HmacDash == <<104, 109, 97, 99, 45>>
-AlgWire(a) ==
-  CASE a = "sha1"   -> <<9>>  \o HmacDash \o <<115, 104, 97, 49, 0>>
-    [] a = "sha256" -> <<11>> \o HmacDash \o <<115, 104, 97, 50, 53, 54, 0>>
-    [] a = "sha384" -> <<11>> \o HmacDash \o <<115, 104, 97, 51, 56, 52, 0>>
-    [] a = "sha512" -> <<11>> \o HmacDash \o <<115, 104, 97, 53, 49, 50, 0>>
-    [] OTHER        -> <<8>>  \o HmacDash \o <<109, 100, 53, 0>>       \* hmac-md5: not supported
+AlgLabel(a) ==
+  CASE a = "sha1"   -> HmacDash \o <<115, 104, 97, 49>>
+    [] a = "sha256" -> HmacDash \o <<115, 104, 97, 50, 53, 54>>
+    [] a = "sha384" -> HmacDash \o <<115, 104, 97, 51, 56, 52>>
+    [] a = "sha512" -> HmacDash \o <<115, 104, 97, 53, 49, 50>>
+    [] OTHER        -> HmacDash \o <<109, 100, 53>>                    \* hmac-md5: not supported
+\* a name from its labels
+RECURSIVE NameOf(_)
+NameOf(ls) == IF ls = <<>> THEN <<0>> ELSE <<Len(Head(ls))>> \o Head(ls) \o NameOf(Tail(ls))
+AlgWire(a) == NameOf(<<AlgLabel(a)>>)
 AlgKnown(w) == \E a \in Algs : AlgWire(a) = w
 AlgOfWire(w) == CHOOSE a \in Algs : AlgWire(a) = w
+\* first label of an (uncompressed) name
+FirstLabel(w) == IF w = <<>> \/ w[1] = 0 \/ w[1] > 63 \/ w[1] + 1 > Len(w) THEN <<>> ELSE SubSeq(w, 2, w[1] + 1)
+
+\* RFC 8945 6: the algorithm is identified by a domain name - the whole name.
+\* Algorithm::from_name (octet-exact, as the library compares): "none" if the
+\* name is not exactly the name of a supported algorithm
+AlgFromName(w) ==
+  IF "M_alg_first_label" \in Dev
+  THEN (IF \E a \in Algs : AlgLabel(a) = FirstLabel(w) THEN CHOOSE a \in Algs : AlgLabel(a) = FirstLabel(w) ELSE "none")
+  ELSE IF AlgKnown(w) THEN AlgOfWire(w) ELSE "none"
+\* what the RFC admits for a name: domain names compare case-insensitively, so
+\* another spelling of a supported name may be recognised or not; any other
+\* name (more labels, fewer labels, another label) is not a supported algorithm
+AlgFromNameRfc(w) ==
+  IF AlgKnown(w) THEN {AlgOfWire(w)}
+  ELSE IF AlgKnown(LowerSeq(w)) THEN {AlgOfWire(LowerSeq(w)), "none"}
+  ELSE {"none"}
+\* presentation format (FromStr / Display): the label without the root dot;
+\* the absolute form "hmac-sha256." names the same domain name
+Dot == 46
+AlgFromStr(s) == IF \E a \in Algs : AlgLabel(a) = s THEN CHOOSE a \in Algs : AlgLabel(a) = s ELSE "none"
+AlgFromStrRfc(s) ==
+  LET rel == IF s # <<>> /\ s[Len(s)] = Dot THEN SubSeq(s, 1, Len(s) - 1) ELSE s
+  IN IF \E a \in Algs : AlgLabel(a) = s THEN {AlgFromStr(s)}
+     ELSE IF \E a \in Algs : AlgLabel(a) = LowerSeq(rel) THEN {AlgFromStr(LowerSeq(rel)), "none"}
+     ELSE {"none"}
+
 \* RFC 8945 5.2.2.1: a MAC may be truncated to no less than max(10, native/2)
 RfcMinLen(a) == Max(10, Native(a) \div 2)
+\* ... and the lengths a key may be configured with (Algorithm::within_len_bounds)
+RfcLenOk(a, n) == n >= RfcMinLen(a) /\ n <= Native(a)
+WithinLenBounds(a, n) ==
+  IF "M_len_floor_min" \in Dev THEN n >= Min(10, Native(a) \div 2) /\ n <= Native(a)
+  ELSE RfcLenOk(a, n)
+\* Key::new / Key::generate -> calculate_bounds.  -1 = None (the native length)
+KeyNewStep(a, minlen, slen) ==
+  IF minlen # -1 /\ ~WithinLenBounds(a, minlen) THEN [res |-> "BadMinMacLen", minlen |-> 0, slen |-> 0]
+  ELSE IF slen # -1 /\ ~WithinLenBounds(a, slen) THEN [res |-> "BadSigningLen", minlen |-> 0, slen |-> 0]
+  ELSE [res |-> "Ok", minlen |-> IF minlen = -1 THEN Native(a) ELSE minlen,
+                      slen |-> IF slen = -1 THEN Native(a) ELSE slen]
 
 BADSIG == 16  BADKEY == 17  BADTIME == 18  BADTRUNC == 22  FORMERR == 1
 NOTAUTH == 9
@@ -86,21 +138,31 @@ HdrRcode(h) == h[4] % 16
 SetId(h, id) == EncU16(id) \o SubSeq(h, 3, Len(h))
 SetAr(h, n) == SubSeq(h, 1, Len(h) - 2) \o EncU16(n)
 
+\* A TSIG record is kept field by field, with what an adversary can do to its
+\* structure: `name' / `alg' are names as on the wire (labels ended by the root
+\* label or by a compression pointer <<192 + hi, lo>>), `cls' / `ttl' the CLASS
+\* and TTL of the RR (ANY, 0), `rdx' octets that follow Other Data inside the
+\* RDATA, `rdadj' what RDLENGTH says more (less) than the RDATA has, `oladj' what
+\* Other Len says more than there is other-data.
 TsigRdata(r) == r.alg \o EncU48(r.time) \o EncU16(r.fudge) \o EncU16(Len(r.mac)) \o r.mac
-                \o EncU16(r.oid) \o EncU16(r.err) \o EncU16(Len(r.other)) \o r.other
+                \o EncU16(r.oid) \o EncU16(r.err) \o EncU16(Len(r.other) + r.oladj) \o r.other \o r.rdx
 \* NAME, TYPE TSIG (250), CLASS ANY (255), TTL 0, RDLENGTH, RDATA
 EncRec(r) == IF r.ty = "tsig"
-             THEN r.name \o <<0, 250, 0, 255, 0, 0, 0, 0>> \o EncU16(Len(TsigRdata(r))) \o TsigRdata(r)
+             THEN r.name \o <<0, 250>> \o EncU16(r.cls) \o EncU32(r.ttl)
+                  \o EncU16(Len(TsigRdata(r)) + r.rdadj) \o TsigRdata(r)
              ELSE r.raw
 EncRecs(rs) == Concat([i \in 1..Len(rs) |-> EncRec(rs[i])])
 Wire(m) == m.hdr \o m.body \o EncRecs(m.recs)
 
+ANY == 255
 MkTsig(name, algw, time, fudge, mac, oid, err, other) ==
   [ty |-> "tsig", name |-> name, alg |-> algw, time |-> time, fudge |-> fudge,
-   mac |-> mac, oid |-> oid, err |-> err, other |-> other, raw |-> <<>>]
+   mac |-> mac, oid |-> oid, err |-> err, other |-> other, raw |-> <<>>,
+   cls |-> ANY, ttl |-> 0, rdx |-> <<>>, rdadj |-> 0, oladj |-> 0]
 MkOther(raw) ==
   [ty |-> "other", name |-> <<>>, alg |-> <<>>, time |-> 0, fudge |-> 0,
-   mac |-> <<>>, oid |-> 0, err |-> 0, other |-> <<>>, raw |-> raw]
+   mac |-> <<>>, oid |-> 0, err |-> 0, other |-> <<>>, raw |-> raw,
+   cls |-> 0, ttl |-> 0, rdx |-> <<>>, rdadj |-> 0, oladj |-> 0]
 
 PushRec(m, r) == [m EXCEPT !.hdr = SetAr(@, HdrAr(@) + 1), !.recs = Append(@, r)]
 \* remove_tsig: restore the ID, decrement ARCOUNT (the library leaves the
@@ -109,17 +171,58 @@ RemoveTsig(m, oid) ==
   [m EXCEPT !.hdr = SetAr(SetId(@, oid), HdrAr(@) - 1),
             !.recs = SubSeq(@, 1, Len(@) - 1)]
 
+\* Name compression (RFC 1035 4.1.4).  s = the octets being walked (first the
+\* name field, then the message w), i = position in s, base = offset of s[1] in
+\* the message; a pointer must point to an earlier position.  <<>> = the name
+\* cannot be expanded, otherwise labels + root label.
+RECURSIVE ExpandFrom(_, _, _, _, _, _)
+ExpandFrom(s, i, base, w, acc, fuel) ==
+  IF fuel = 0 \/ i > Len(s) \/ s[i] > 255 THEN <<>>
+  ELSE IF s[i] = 0 THEN Append(acc, 0)
+  ELSE IF s[i] >= 192
+       THEN IF i + 1 > Len(s) \/ s[i + 1] > 255 THEN <<>>
+            ELSE LET t == (s[i] - 192) * 256 + s[i + 1]
+                 IN IF t >= base + i - 1 THEN <<>> ELSE ExpandFrom(w, t + 1, 0, w, acc, fuel - 1)
+  ELSE IF s[i] > 63 \/ i + s[i] > Len(s) THEN <<>>
+  ELSE ExpandFrom(s, i + 1 + s[i], base, w, acc \o SubSeq(s, i, i + s[i]), fuel - 1)
+NameExpand(n, w, off) == IF n # <<>> /\ n[Len(n)] = 0 /\ \A i \in 1..Len(n) : n[i] < 192
+                         THEN ExpandFrom(n, 1, off, n, <<>>, 40)       \* no pointer: the message is not needed
+                         ELSE ExpandFrom(n, 1, off, w, <<>>, 40)
+\* the field must be exactly one name: labels up to the root label / the first pointer
+RECURSIVE NameFieldEnd(_, _)
+NameFieldEnd(n, i) == IF i > Len(n) THEN 0
+                      ELSE IF n[i] = 0 THEN i
+                      ELSE IF n[i] >= 192 THEN i + 1
+                      ELSE IF n[i] > 63 THEN 0 ELSE NameFieldEnd(n, i + 1 + n[i])
+
+RecOff(m, i) == Len(m.hdr) + Len(m.body) + Len(EncRecs(SubSeq(m.recs, 1, i - 1)))
+\* owner and algorithm name of record i, expanded
+KeyNameOf(m, i) == NameExpand(m.recs[i].name, Wire(m), RecOff(m, i))
+AlgNameOf(m, i) == NameExpand(m.recs[i].alg, Wire(m), RecOff(m, i) + Len(m.recs[i].name) + 10)
+
 \* MessageTsig::from_message: the first TSIG record must be interpretable -
-\* other-data is empty or a 48-bit time (RFC 8945 4.2), anything else could not
-\* be represented in the signed variables - and must be the last record
+\* its names expand, RDLENGTH / Other Len agree with the fields, CLASS is ANY
+\* and TTL 0 (RFC 8945 4.2), other-data is empty or a 48-bit time (anything
+\* else could not be represented in the signed variables) - and must be the
+\* last record
+TsigInterpretable(m, i) ==
+  LET r == m.recs[i]
+  IN /\ NameFieldEnd(r.name, 1) = Len(r.name) /\ KeyNameOf(m, i) # <<>>
+     /\ NameFieldEnd(r.alg, 1) = Len(r.alg) /\ AlgNameOf(m, i) # <<>>
+     /\ r.rdadj = 0 /\ r.rdx = <<>> /\ r.oladj = 0
+     /\ ((r.cls = ANY /\ r.ttl = 0) \/ "D_tsig_class_ttl_unchecked" \in Dev)
+     /\ (Len(r.other) \in {0, 6} \/ "D_other_not6_unsigned" \in Dev)
 FromMessage(m) ==
   LET idx == {i \in 1..Len(m.recs) : m.recs[i].ty = "tsig"}
   IN IF idx = {} THEN "Missing"
      ELSE LET f == CHOOSE i \in idx : \A k \in idx : i <= k
-          IN IF Len(m.recs[f].other) \notin {0, 6} /\ "D_other_not6_unsigned" \notin Dev THEN "Invalid"
+          IN IF ~TsigInterpretable(m, f) THEN "Invalid"
              ELSE IF f # Len(m.recs) THEN "Position"
              ELSE "Found"
 LastRec(m) == m.recs[Len(m.recs)]
+\* names of the (found) TSIG record as the receiver reads them
+LastKeyName(m) == KeyNameOf(m, Len(m.recs))
+LastAlgName(m) == AlgNameOf(m, Len(m.recs))
 
 --------------------------------------------------------------------------
 (* 1. Layout (RFC 8945 4.3.1 - 4.3.3, 5.3.1) *)
@@ -130,10 +233,10 @@ MsgSansTsig(m) ==
   IN EncU16(t.oid) \o SubSeq(m.hdr, 3, Len(m.hdr) - 2) \o EncU16(HdrAr(m.hdr) - 1)
      \o m.body \o EncRecs(SubSeq(m.recs, 1, Len(m.recs) - 1))
 
-\* TSIG variables: NAME (canonical), CLASS, TTL, Algorithm Name, Time Signed,
-\* Fudge, Error, Other Len, Other Data - all as on the wire
+\* TSIG variables: NAME (canonical), CLASS, TTL, Algorithm Name (canonical),
+\* Time Signed, Fudge, Error, Other Len, Other Data - all as in the record
 RfcVars(keyname, algw, t) ==
-  LowerSeq(keyname) \o <<0, 255>> \o <<0, 0, 0, 0>> \o algw
+  LowerSeq(keyname) \o EncU16(t.cls) \o EncU32(t.ttl) \o LowerSeq(algw)
   \o EncU48(t.time) \o EncU16(t.fudge) \o EncU16(t.err) \o EncU16(Len(t.other)) \o t.other
 RfcTimers(t) == EncU48(t.time) \o EncU16(t.fudge)
 Len16(mac) == EncU16(Len(mac))
@@ -143,6 +246,16 @@ DigestResp(keyname, algw, prior, m) ==
   Len16(prior) \o prior \o MsgSansTsig(m) \o RfcVars(keyname, algw, LastRec(m))
 DigestSubseq(prior, unsignedOcts, m) ==
   Len16(prior) \o prior \o unsignedOcts \o MsgSansTsig(m) \o RfcTimers(LastRec(m))
+
+\* What a receiver that follows RFC 8945 4.3.3 to the letter feeds to HMAC for a
+\* message it received: the TSIG variables are taken from the record as
+\* received - owner name and algorithm name (expanded, canonical), CLASS, TTL,
+\* times, error, other-data.  `ctx' = what precedes the message in the digest
+\* (nothing for a request; Len16(prior MAC) | prior MAC [| unsigned messages]
+\* for answers).  A changed field therefore always changes the digest.
+RfcRecvDigest(ctx, m, timersOnly) ==
+  ctx \o MsgSansTsig(m) \o (IF timersOnly THEN RfcTimers(LastRec(m))
+                            ELSE RfcVars(LastKeyName(m), LastAlgName(m), LastRec(m)))
 
 \* RFC 8945 5.2.3: now within [time - fudge, time + fudge]
 TimeOk(now, time, fudge) == Max(now - fudge, 0) <= time /\ now + fudge >= time
@@ -159,6 +272,10 @@ SignT(tbl, alg, sec, data, fullNew) ==
   IN IF f # {} THEN LET j == CHOOSE j \in f : TRUE IN [tbl |-> tbl, j |-> j, full |-> tbl[j].full]
      ELSE [tbl |-> Append(tbl, [alg |-> alg, sec |-> sec, data |-> data, full |-> fullNew]),
            j |-> Len(tbl) + 1, full |-> fullNew]
+
+\* `mac' is (a prefix of) the HMAC of `data' under the key
+MacIsOf(tbl, alg, sec, data, mac) ==
+  \E j \in Find(tbl, alg, sec, data) : Take(tbl[j].full, Len(mac)) = mac
 
 \* Key::compare_signatures.  Data that was never signed has an unknown MAC.
 CompareSig(tbl, key, data, provided) ==
@@ -204,9 +321,11 @@ ServerRequestStep(key, m, now, tbl) ==
       NoCtx == [res |-> "", ctx |-> <<>>, msg |-> m, etime |-> 0, efudge |-> 0]
   IN IF fm = "Missing" THEN [NoCtx EXCEPT !.res = "Unsigned"]
      ELSE IF fm \in {"Position", "Invalid"} THEN [NoCtx EXCEPT !.res = "FORMERR"]
-     ELSE LET t == LastRec(m) IN
-       IF ~AlgKnown(t.alg) THEN [NoCtx EXCEPT !.res = "BADKEY"]
-       ELSE IF ~(LowerSeq(t.name) = LowerSeq(key.name) /\ AlgOfWire(t.alg) = key.alg)
+     ELSE LET t == LastRec(m)
+              alg == AlgFromName(LastAlgName(m)) IN
+       IF alg = "none" THEN [NoCtx EXCEPT !.res = "BADKEY"]
+       \* KeyStore::get_key(owner, algorithm), single-key store
+       ELSE IF ~(LowerSeq(LastKeyName(m)) = LowerSeq(key.name) /\ alg = key.alg)
             THEN [NoCtx EXCEPT !.res = "BADKEY"]
        ELSE LET data == SansOf(m) \o VarsOcts(key, t.time, t.fudge, t.err, t.other)
                 c == CompareSig(tbl, key, data, t.mac)
@@ -248,8 +367,9 @@ ServerErrUnsignedStep(req, resp, errcode, time, fudge) ==
   THEN [panic |-> "D_server_error_panic" \in Dev, tsig |-> FALSE, msg |-> resp]
   ELSE LET t == LastRec(req)
        IN [panic |-> FALSE, tsig |-> TRUE,
-           msg |-> PushRec(resp, MkTsig(t.name, t.alg, time, fudge, <<>>,
-                                        HdrId(req.hdr), errcode, <<>>))]
+           msg |-> PushRec(resp, [MkTsig(LastKeyName(req), LastAlgName(req), time, fudge, <<>>,
+                                         HdrId(req.hdr), errcode, <<>>)
+                                  EXCEPT !.cls = t.cls, !.ttl = t.ttl])]
 \* signed error (BADTIME): other-data = server time
 ServerErrSignedStep(key, ctx, resp, etime, efudge, now, tbl, fullNew) ==
   LET data == ctx \o Wire(resp) \o VarsOcts(key, etime, efudge, BADTIME, EncU48(now))
@@ -267,8 +387,9 @@ AnswerTsigCheck(key, m) ==
      ELSE LET t == LastRec(m) IN
        IF HdrRcode(m.hdr) = NOTAUTH /\ t.err = BADKEY THEN "ServerBadKey"
        ELSE IF HdrRcode(m.hdr) = NOTAUTH /\ t.err = BADSIG THEN "ServerBadSig"
-       ELSE IF ~(LowerSeq(t.name) = LowerSeq(key.name)
-                 /\ LowerSeq(t.alg) = LowerSeq(AlgWire(key.alg))) THEN "BadKey"
+       \* Key::check_tsig: owner and algorithm name are compared as names
+       ELSE IF ~(LowerSeq(LastKeyName(m)) = LowerSeq(key.name)
+                 /\ LowerSeq(LastAlgName(m)) = LowerSeq(AlgWire(key.alg))) THEN "BadKey"
        ELSE ""
 \* SigningContext::check_answer_time
 AnswerTimeCheck(m, now) ==
